@@ -12,9 +12,15 @@ Definition h_dyn_files (rt : task) (dv : list N) : list N :=
   | [] => []
   end.
 
+(* a generator marked [[2]] creates a two-stage pipeline per file: the second task consumes the
+   product of the first *)
 Definition h_children (rt : task) (files : list N) : list ptask :=
-  map (fun f : N => mkPT (mkTask (20000 + (f - 10000))%N (tsrc rt) [f] [(30000 + (f - 10000))%N] [] None false [] false 0%Z [] [])
-                         [] [] false false) files.
+  let two := existsb (fun m => eqbL m [2%N]) (tmarks rt) in
+  flat_map (fun f : N =>
+    let k := (f - 10000)%N in
+    mkPT (mkTask (20000 + k)%N (tsrc rt) [f] [(30000 + k)%N] [] None false [] false 0%Z [] []) [] [] false false ::
+    (if two then [mkPT (mkTask (40000 + k)%N (tsrc rt) [(30000 + k)%N] [(50000 + k)%N] [] None false [] false 0%Z [] []) [] [] false false]
+     else [])) files.
 
 Inductive phop :=
 | PSet (n c : N)
